@@ -129,6 +129,27 @@ def c19_1(ctx: Ctx) -> RuleResult:
                 res.add(m, k, "the plug-in name used as registry key is lower-cased", ok,
                         "" if ok else f"key `{show(t, 60)}` is used with its original case: names differing in case do not find / do not collide with each other",
                         construct=f"{m.name}: key {ast.unparse(k)[:40]}")
+        # a new per-type dict stored into the registry: the keys of every dict display in the stored *value*, wherever it is
+        # built (a local, a helper that returns the re-ordered dict)
+        for asg in nodes_in(m, ast.Assign):
+            if not any(isinstance(t_, ast.Subscript) and _is_reg(ctx, m, t_.value, reg) for t_ in asg.targets):
+                continue
+            if isinstance(asg.value, ast.Dict):
+                continue  # counted above, key by key
+            vt = X.force_inline(X.at(m, asg.value), m, effects=True)
+            seen_k = set()
+            for s_ in X.closure(vt):
+                if s_[0] != "dict":
+                    continue
+                for kt, _v in s_[1]:
+                    if kt[0] == "star" or kt in seen_k:
+                        continue
+                    seen_k.add(kt)
+                    n_keys += 1
+                    ok = _is_lowered(ctx, kt)
+                    res.add(m, asg, "the plug-in name used as registry key is lower-cased", ok,
+                            "" if ok else f"key `{show(kt, 60)}` is used with its original case: names differing in case do not find / do not collide with each other",
+                            construct=f"{m.name}: key {show(kt, 40)} of the stored dict")
     # is_supported implementations
     for f in ctx.repo.implementations("ropt.plugins.base.Plugin", "is_supported"):
         rt = X.return_term(f)
@@ -224,11 +245,36 @@ def c19_2(ctx: Ctx) -> RuleResult:
                 return p
         return None
 
+    plugin_p = ("param", add.qualname, add.positional[-1] if "plugin" not in add.params else "plugin")
+
+    def _old(t):
+        """the previous per-type dict, possibly copied (`dict(old)`, `old.copy()`, `old.items()`)"""
+        while t[0] == "call" and ((t[1] == ("builtin", "dict") and len(t[2]) == 1) or (t[1][0] == "attr" and t[1][2] in ("copy", "items") and not t[2])):
+            t = t[2][0] if t[1][0] == "builtin" else t[1][1]
+        return _term_is_subreg(t, reg)
+
+    def _only_new(t):
+        return t[0] == "dict" and len(t[1]) == 1 and t[1][0][0][0] != "star" and t[1][0][1] == plugin_p and _is_lowered(ctx, t[1][0][0])
+
+    def _new_then_old(t):
+        """the value is a new dict: first the new name, then every entry of the previous dict in its order"""
+        if t[0] == "dict" and len(t[1]) == 2 and _only_new(("dict", t[1][:1])) and t[1][1][0][0] == "star" and _old(t[1][1][1]):
+            return True  # {new: plugin, **old}
+        if t[0] == "mut" and t[2] == "update" and _only_new(t[1]) and t[3][0] == "call" and len(t[3][2]) == 1 and not t[3][3] and _old(t[3][2][0]):
+            return True  # d = {new: plugin}; d.update(old)
+        if t[0] == "binop" and t[1] == "|" and _only_new(t[2]) and _old(t[3]):
+            return True  # {new: plugin} | old
+        return False
+
     for rs_ in replace_stores:
+        if prio_p is None or prio_pol(lits_at(add, rs_)) is not True:
+            continue
+        vt_ = X.force_inline(X.at(add, rs_.value), add, effects=True)
+        if all(_new_then_old(a_) for a_ in (vt_[1] if vt_[0] == "phi" else [vt_])) and [i_ for i_ in item_stores if prio_pol(lits_at(add, i_)) is False]:
+            ok = True
+            continue
         d_ = rs_.value
         if not isinstance(d_, ast.Dict) or not d_.keys or d_.keys[0] is None:
-            continue
-        if prio_p is None or prio_pol(lits_at(add, rs_)) is not True:
             continue
         first_is_new = X.at(add, d_.values[0]) == ("param", add.qualname, add.positional[-1] if "plugin" not in add.params else "plugin") and _is_lowered(ctx, X.at(add, d_.keys[0]))
         rest_ok = False
@@ -255,10 +301,18 @@ def c19_2(ctx: Ctx) -> RuleResult:
     res.add(get, splits[0] if splits else get.node, "the method specification is split on the first '/' only", ok, "" if ok else "method names containing '/' are split wrongly", construct="get_plugin: split")
     # return sites of plug-ins: in get_plugin and in the private lookup helpers it calls
     lookup_funcs = [(get, [])]
+    frames: dict = {}  # helper -> its parameters expressed in get_plugin's frame (module-level helpers receive the registry)
     for call_, cs, _k in ctx.cg.all_callees(get):
         for g in cs:
             if g.cls is c and g is not get and g.name.startswith("_") and not any(g is f_ for f_, _l in lookup_funcs):
                 lookup_funcs.append((g, lits_at(get, stmt_of(call_))))
+            elif g.cls is None and g.outer is None and g.module is c.module and g.name.startswith("_") and not any(g is f_ for f_, _l in lookup_funcs):
+                from ..callgraph import bind_args
+
+                ct_ = X.at(get, call_)
+                if ct_[0] == "call":
+                    frames[g.qualname] = {("param", g.qualname, k_): v_ for k_, v_ in bind_args(g, ct_, False).items()}
+                    lookup_funcs.append((g, lits_at(get, stmt_of(call_))))
     explicit_sites, disc_sites = [], []
     from ..util import gated_values
 
@@ -272,6 +326,11 @@ def c19_2(ctx: Ctx) -> RuleResult:
             for conds, leaf in gated_values(ctx, f_, r_.value):
                 extra = [(a_, p_) for a_, p_ in conds]
                 lits = base_lits + lits_at(f_, r_, extra)
+                if f_.qualname in frames:
+                    from ..util import subst_params
+
+                    leaf = subst_params(leaf, frames[f_.qualname])
+                    lits = [(subst_params(a_, frames[f_.qualname]), p_) for a_, p_ in lits]
                 for a in _strip_alts(leaf):
                     key = (_norm(a), f_.qualname)
                     if a[0] == "call" and a[1][0] == "attr" and a[1][2] == "get" and any(b[0] == "sub" for b in _strip_alts(a[1][1])) and _term_is_subreg(a[1][1], reg):
